@@ -74,6 +74,7 @@ Definition pkg_vars : list (string * string * string * bool) :=
    ("interp", "errExit", "error", true);
    ("interp", "errNext", "error", true);
    ("interp", "errNextfile", "error", true);
+   ("interp", "errNoFileReads", "error", true);
    ("interp", "errorType", "reflect.Type", true);
    ("interp", "varRegex", "*regexp.Regexp", true);
    ("lexer", "keywordTokens", "map[string]lexer.Token", true);
